@@ -36,15 +36,39 @@ func toRecipe(c oracle.CharSpec) spg.CharRecipe {
 		// callers build such slices with append: leave spare capacity behind the
 		// last element (code that appends to the caller's slice then writes into
 		// memory the caller shares)
-		rs := make([]string, len(c.RequireSets), len(c.RequireSets)+spareCap)
+		rs := make([]string, len(c.RequireSets)+spareCap)
 		copy(rs, c.RequireSets)
-		r.RequireSets = rs
+		for i := len(c.RequireSets); i < len(rs); i++ {
+			rs[i] = spareSentinel
+		}
+		r.RequireSets = rs[:len(c.RequireSets)]
 	}
 	return r
 }
 
 // spareCap is the extra capacity given to RequireSets slices built by toRecipe.
 var spareCap = 0
+
+const spareSentinel = "\x00caller-owned spare element"
+
+// callerSliceIntact checks that a call left the caller's RequireSets array
+// alone: the elements and the spare capacity behind them.
+func callerSliceIntact(r *spg.CharRecipe, want []string) error {
+	if len(r.RequireSets) != len(want) {
+		return fmt.Errorf("RequireSets changed length: %q, caller set %q", r.RequireSets, want)
+	}
+	full := r.RequireSets[:cap(r.RequireSets)]
+	for i, s := range full {
+		if i < len(want) {
+			if s != want[i] {
+				return fmt.Errorf("the caller's RequireSets slice was modified: element %d is %q, caller set %q", i, s, want[i])
+			}
+		} else if s != spareSentinel {
+			return fmt.Errorf("the spare capacity behind the caller's RequireSets slice was written to: element %d is now %q", i, s)
+		}
+	}
+	return nil
+}
 
 var presetByName = map[string]spg.SFFunction{
 	"SFNone":               spg.SFNone,
@@ -116,8 +140,15 @@ func buildSep(s gen.SepSpec) (string, spg.SFFunction, sepModel) {
 	case "draw":
 		vals := append([]string{}, s.Draw...)
 		ent := s.DrawEnt
+		calls := 0
+		vary := s.VaryEnt
 		f := func() (string, spg.FloatE) {
-			return vals[spg.VerifRandomUint32n(uint32(len(vals)))], spg.FloatE(ent)
+			e := ent
+			if vary && calls%2 == 1 {
+				e++
+			}
+			calls++
+			return vals[spg.VerifRandomUint32n(uint32(len(vals)))], spg.FloatE(e)
 		}
 		return "", f, sepModel{Values: vals, Uniform: true, Entropy: float64(ent)}
 	case "nested":
@@ -138,14 +169,22 @@ func buildWL(w gen.WLSpec) (*spg.WLRecipe, sepModel, error) {
 		// which lists were constructed before
 		spg.NewWordList(append([]string{w.Words[0] + w.Words[1]}, w.Words[2:]...))
 	}
-	wl, err := spg.NewWordList(append([]string{}, w.Words...))
+	input := append([]string{}, w.Words...)
+	wl, err := spg.NewWordList(input)
 	if err != nil {
 		return nil, sepModel{}, err
+	}
+	// the caller goes on using its own slice: the list must not follow it
+	for i := range input {
+		input[i] = "\x00overwritten-by-caller"
 	}
 	r := spg.NewWLRecipe(w.Length, wl)
 	r.Capitalize = spg.CapScheme(w.Scheme)
 	var m sepModel
 	r.SeparatorChar, r.SeparatorFunc, m = buildSep(w.Sep)
+	if r.SeparatorFunc != nil && w.Sep.Decoy != "" {
+		r.SeparatorChar = w.Sep.Decoy // documented: SeparatorChar is used only when SeparatorFunc is nil
+	}
 	if w.Sep.Kind == "nested" {
 		// the separator is a one-word password from a second recipe over the SAME list
 		il := 1 + len(w.Sep.Preset)%3 // inner length 1..3, carried in Preset ("", "x", "xx")
@@ -234,6 +273,32 @@ func hooksActive() error {
 			first = o.Pw.String()
 		} else if o.Pw.String() != first {
 			return &ev.Inc{Why: "hook H2 inactive: generation is not a function of the tape"}
+		}
+	}
+	return nil
+}
+
+// firstCallCheck must run before anything else draws in this process: the
+// very first generation and later ones must be the same function of the
+// source bytes.
+func firstCallCheck() error {
+	wl, err := spg.NewWordList([]string{"alpha", "beta", "gamma", "delta", "epsilon"})
+	if err != nil {
+		return &ev.Inc{Why: err.Error()}
+	}
+	r := spg.NewWLRecipe(4, wl)
+	r.Capitalize = spg.CSRandom
+	var first, firstPos = "", 0
+	for i := 0; i < 3; i++ {
+		tp := &tape.Tape{TailKey: 4242}
+		o := callRaw(tp, r.Generate)
+		if o.Pw == nil {
+			return &ev.Inc{Why: "reference wordlist recipe did not generate"}
+		}
+		if i == 0 {
+			first, firstPos = o.Pw.String(), tp.Pos
+		} else if o.Pw.String() != first || tp.Pos != firstPos {
+			return fmt.Errorf("the first generation in this process gave %q after %d source bytes, call %d with the same source bytes gave %q after %d: the outcome depends on whether another call preceded it", first, firstPos, i+1, o.Pw.String(), tp.Pos)
 		}
 	}
 	return nil
